@@ -163,6 +163,12 @@ pub struct Ctx<G: AffineRepr> {
     pub challenges: RefCell<Vec<Fr<G>>>,
     /// use the handles returned by the API (true) or construct `Variable`s directly
     pub use_returned: bool,
+    /// (prover only) the k-th allocation call (allocate / allocate_multiplier, counted over
+    /// both phases) is made without an assignment
+    pub missing_at: Cell<Option<usize>>,
+    pub alloc_calls: Cell<usize>,
+    /// what that call returned: Ok(handles) is recorded as Ok, Err(e) as the error
+    pub missing_result: RefCell<Option<Result<(), R1CSError>>>,
 }
 
 impl<G: AffineRepr> Ctx<G> {
@@ -176,6 +182,9 @@ impl<G: AffineRepr> Ctx<G> {
             calls: RefCell::new(vec![]),
             challenges: RefCell::new(vec![]),
             use_returned: true,
+            missing_at: Cell::new(None),
+            alloc_calls: Cell::new(0),
+            missing_result: RefCell::new(None),
         })
     }
     fn real(&self, v: &Var) -> Variable<Fr<G>> {
@@ -235,11 +244,25 @@ pub fn run_common<G, CS>(
     ops: &[Op],
     ctx: &Ctx<G>,
     chal: &dyn Fn(&mut CS, &'static [u8]) -> Fr<G>,
-) where
+) -> Result<(), R1CSError>
+where
     G: AffineRepr,
     CS: ConstraintSystem<Fr<G>> + VerifTamper<Fr<G>>,
 {
     for op in ops {
+        if matches!(op, Op::Alloc { .. } | Op::AllocMul { .. }) {
+            let k = ctx.alloc_calls.get();
+            ctx.alloc_calls.set(k + 1);
+            if ctx.is_prover && ctx.missing_at.get() == Some(k) {
+                let r = match op {
+                    Op::Alloc { .. } => cs.allocate(None).map(|_| ()),
+                    _ => cs.allocate_multiplier(None).map(|_| ()),
+                };
+                *ctx.missing_result.borrow_mut() = Some(r.clone());
+                // a gadget stops at the error
+                return Err(r.err().unwrap_or(R1CSError::GadgetError { description: "harness: call without assignment succeeded".into() }));
+            }
+        }
         match op {
             Op::Alloc { val } => {
                 let (v, exp) = {
@@ -309,6 +332,7 @@ pub fn run_common<G, CS>(
             }
         }
     }
+    Ok(())
 }
 
 /// Role-specific part of the API (commit is an inherent method on both roles).
@@ -337,7 +361,7 @@ impl<G: AffineRepr, T: BorrowMut<Transcript>> RoleCs<G> for Verifier<G, T> {
     }
 }
 
-pub fn run_phase1<G, CS>(cs: &mut CS, ops: &[Op], ctx: &Rc<Ctx<G>>)
+pub fn run_phase1<G, CS>(cs: &mut CS, ops: &[Op], ctx: &Rc<Ctx<G>>) -> Result<(), R1CSError>
 where
     G: AffineRepr + 'static,
     CS: RoleCs<G>,
@@ -356,16 +380,16 @@ where
                 let c = ctx.clone();
                 cs.specify_randomized_constraints(move |rcs| {
                     c.model.borrow_mut().enter_phase2();
-                    run_common::<G, CS::RandomizedCS>(rcs, &body, &c, &|cs, l| cs.challenge_scalar(l));
-                    Ok(())
+                    run_common::<G, CS::RandomizedCS>(rcs, &body, &c, &|cs, l| cs.challenge_scalar(l))
                 })
                 .expect("specify_randomized_constraints must not fail");
             }
             other => run_common::<G, CS>(cs, std::slice::from_ref(other), ctx, &|_, _| {
                 panic!("harness: challenge op in the first phase")
-            }),
+            })?,
         }
     }
+    Ok(())
 }
 
 pub fn make_transcript(prog: &Program) -> Transcript {
@@ -395,6 +419,8 @@ pub struct ProveOpts<G: AffineRepr> {
     pub seed: Option<u64>,
     /// construct variables directly instead of using returned handles
     pub direct_vars: bool,
+    /// make the k-th allocation call without an assignment
+    pub missing_at: Option<usize>,
 }
 
 pub struct ProveOut<G: AffineRepr> {
@@ -412,6 +438,7 @@ pub struct ProveOut<G: AffineRepr> {
     pub next_challenge: Option<[u8; 32]>,
     pub script: Option<instr::ScriptStatus>,
     pub cap: usize,
+    pub missing_result: Option<Result<(), R1CSError>>,
 }
 
 impl<G: AffineRepr> ProveOut<G> {
@@ -433,6 +460,7 @@ pub fn run_prover<G: CurveTag>(prog: &Program, opts: &ProveOpts<G>) -> ProveOut<
     } else {
         ctx
     };
+    ctx.missing_at.set(opts.missing_at);
     let mut rng = CountingRng::new(opts.seed.unwrap_or(prog.seed), 1);
     let mut t = make_transcript(prog);
     let main_id = t.instr_id();
@@ -442,7 +470,9 @@ pub fn run_prover<G: CurveTag>(prog: &Program, opts: &ProveOpts<G>) -> ProveOut<
     let res = guarded(|| {
         if prog.owned {
             let mut p = Prover::new(&pc, t);
-            run_phase1(&mut p, &prog.ops, &ctx);
+            if let Err(e) = run_phase1(&mut p, &prog.ops, &ctx) {
+                return (Err(e), None);
+            }
             if let Some(s) = &opts.script {
                 instr::set_script(s.clone());
             }
@@ -452,7 +482,9 @@ pub fn run_prover<G: CurveTag>(prog: &Program, opts: &ProveOpts<G>) -> ProveOut<
         } else {
             let r = {
                 let mut p = Prover::new(&pc, &mut t);
-                run_phase1(&mut p, &prog.ops, &ctx);
+                if let Err(e) = run_phase1(&mut p, &prog.ops, &ctx) {
+                    return (Err(e), None);
+                }
                 if let Some(s) = &opts.script {
                     instr::set_script(s.clone());
                 }
@@ -485,6 +517,7 @@ pub fn run_prover<G: CurveTag>(prog: &Program, opts: &ProveOpts<G>) -> ProveOut<
         next_challenge: None,
         script: None,
         cap,
+        missing_result: ctx.missing_result.borrow().clone(),
     };
     match res {
         Err(p) => out.panic = Some(p),
@@ -563,12 +596,12 @@ pub fn run_verifier<G: CurveTag>(
     let res = guarded(|| {
         if prog.owned {
             let mut v = Verifier::<G, Transcript>::new(t);
-            run_phase1(&mut v, &prog.ops, &ctx);
+            run_phase1(&mut v, &prog.ops, &ctx).expect("verifier-side construction never fails");
             v.verify_and_return_transcript(proof, &pc, &gens).map(|mut tt| next_challenge(&mut tt))
         } else {
             let r = {
                 let mut v = Verifier::<G, &mut Transcript>::new(&mut t);
-                run_phase1(&mut v, &prog.ops, &ctx);
+                run_phase1(&mut v, &prog.ops, &ctx).expect("verifier-side construction never fails");
                 v.verify_and_return_transcript(proof, &pc, &gens)
             };
             r.map(|tt| next_challenge(tt))
@@ -621,7 +654,7 @@ pub fn run_batch<G: CurveTag>(
         for (m, t) in members.iter().zip(transcripts.iter_mut()) {
             let ctx = Ctx::<G>::new(false, m.commitments.to_vec());
             let mut v = Verifier::<G, &mut Transcript>::new(t);
-            run_phase1(&mut v, &m.prog.ops, &ctx);
+            run_phase1(&mut v, &m.prog.ops, &ctx).expect("verifier-side construction never fails");
             instances.push((v, m.proof));
         }
         batch_verify(&mut rng, instances, &pc, &gens)
@@ -634,7 +667,7 @@ pub fn run_batch<G: CurveTag>(
 
 /// Convenience: honest prove followed by verify with the same program.
 pub fn prove_and_verify<G: CurveTag>(prog: &Program) -> (ProveOut<G>, Option<VerifyOut<G>>) {
-    let p = run_prover::<G>(prog, &ProveOpts { record: false, script: None, cap: None, pc_gens: None, seed: None, direct_vars: false });
+    let p = run_prover::<G>(prog, &ProveOpts::default());
     let v = p.proof.as_ref().map(|pf| run_verifier::<G>(prog, &p.commitments, pf, &VerifyOpts::default()));
     (p, v)
 }
@@ -646,4 +679,26 @@ pub fn lc_is_trivial(lc: &Lc) -> bool {
 #[allow(dead_code)]
 fn _unused<G: AffineRepr>() -> Fr<G> {
     Fr::<G>::one()
+}
+
+/// Drive only the first phase on both roles (no proof needed) and hand back the call records.
+pub fn phase1_calls<G: CurveTag>(prog: &Program) -> Result<(Vec<CallRec>, Vec<CallRec>), String> {
+    let pc = pc_gens::<G>();
+    guarded(|| {
+        let ctxp = Ctx::<G>::new(true, vec![]);
+        let mut tp = make_transcript(prog);
+        {
+            let mut p = Prover::new(&pc, &mut tp);
+            let _ = run_phase1(&mut p, &prog.ops, &ctxp);
+        }
+        let ctxv = Ctx::<G>::new(false, ctxp.commitments.borrow().clone());
+        let mut tv = make_transcript(prog);
+        {
+            let mut v = Verifier::<G, &mut Transcript>::new(&mut tv);
+            let _ = run_phase1(&mut v, &prog.ops, &ctxv);
+        }
+        let a = ctxp.calls.borrow().clone();
+        let b = ctxv.calls.borrow().clone();
+        (a, b)
+    })
 }
